@@ -21,7 +21,7 @@ struct CaseTally
 {
     long long cases = 0, transitions = 0;
     long long cls_order[4] = {0, 0, 0, 0};
-    long long lock_exact = 0, lock_near = 0, grid_lock = 0, grid_generic = 0;
+    long long lock_exact = 0, lock_near = 0, grid_lock = 0, grid_generic = 0, translated = 0;
     double    w_build = 0, w_quat = 0, w_quatmat = 0, w_rebuild = 0, w_rebuildq = 0, w_xyz = 0, w_zyx = 0, w_ortho = 0;
 };
 
@@ -131,6 +131,38 @@ template <class T> struct CaseChecker
             t.transitions += 5;
         }
 
+        // ---- "3x3 and 4x4 give identical angles" for an affine 4x4 that carries a translation (Euler::extract
+        // documents its Matrix44 argument as "assumed to be affine"; extractSHRT hands such matrices to
+        // extractEulerXYZ): the translation row must not influence any extracted angle. Equality is numeric
+        // (operator==), not bitwise: the library's N = N*M adds 0*t terms, which may turn a -0 angle into +0.
+        {
+            Vec3<T> r0, z0;
+            extractEulerXYZ (m4, r0);
+            extractEulerZYX (m4, z0);
+            static const double TR[2][3] = {{-3, -5, -7}, {1099511627776.0 /*2^40*/, -9.094947017729282e-13 /*-2^-40*/, 11}};
+            for (int q = 0; q < 2; ++q)
+            {
+                Matrix44<T> mt = m4;
+                for (int i = 0; i < 3; ++i) mt[3][i] = (T) TR[q][i];
+                auto int_ = [&] () { return in () + (q ? " translation=(2^40,-2^-40,11)" : " translation=(-3,-5,-7)"); };
+                auto eq3 = [] (const Vec3<T>& A, const Vec3<T>& B) { return A.x == B.x && A.y == B.y && A.z == B.z; };
+                E xt (ord);
+                xt.extract (mt);
+                if (!eq3 (xt, x4) || xt.order () != ord)
+                    R ().fail ("Euler::extract(Matrix44).translation-row-changes-angles", int_ (), vf::Msg () << x4.x << " " << x4.y << " " << x4.z, vf::Msg () << xt.x << " " << xt.y << " " << xt.z);
+                E ct (mt, ord);
+                if (!eq3 (ct, x4) || ct.order () != ord)
+                    R ().fail ("Euler(Matrix44,order).translation-row-changes-angles", int_ (), vf::Msg () << x4.x << " " << x4.y << " " << x4.z, vf::Msg () << ct.x << " " << ct.y << " " << ct.z);
+                Vec3<T> r1, z1;
+                extractEulerXYZ (mt, r1);
+                extractEulerZYX (mt, z1);
+                if (!eq3 (r1, r0)) R ().fail ("extractEulerXYZ.translation-row-changes-angles", int_ (), vf::Msg () << r0.x << " " << r0.y << " " << r0.z, vf::Msg () << r1.x << " " << r1.y << " " << r1.z);
+                if (!eq3 (z1, z0)) R ().fail ("extractEulerZYX.translation-row-changes-angles", int_ (), vf::Msg () << z0.x << " " << z0.y << " " << z0.z, vf::Msg () << z1.x << " " << z1.y << " " << z1.z);
+                ++t.translated;
+                t.transitions += 4;
+            }
+        }
+
         // ---- extraction from the quaternion
         {
             E xq (ord);
@@ -185,6 +217,7 @@ inline void mergeTally (CaseTally& g, const CaseTally& l)
     g.cases += l.cases; g.transitions += l.transitions;
     for (int i = 0; i < 4; ++i) g.cls_order[i] += l.cls_order[i];
     g.lock_exact += l.lock_exact; g.lock_near += l.lock_near; g.grid_lock += l.grid_lock; g.grid_generic += l.grid_generic;
+    g.translated += l.translated;
     g.w_build = std::max (g.w_build, l.w_build); g.w_quat = std::max (g.w_quat, l.w_quat); g.w_quatmat = std::max (g.w_quatmat, l.w_quatmat);
     g.w_rebuild = std::max (g.w_rebuild, l.w_rebuild); g.w_rebuildq = std::max (g.w_rebuildq, l.w_rebuildq);
     g.w_xyz = std::max (g.w_xyz, l.w_xyz); g.w_zyx = std::max (g.w_zyx, l.w_zyx); g.w_ortho = std::max (g.w_ortho, l.w_ortho);
@@ -199,6 +232,7 @@ template <class T> inline void publishTally (const CaseTally& g, const char* wha
     R ().add ("transitions", g.transitions);
     static const char* cn[4] = {"order.static-nonrepeated", "order.static-repeated", "order.rotating-nonrepeated", "order.rotating-repeated"};
     for (int i = 0; i < 4; ++i) R ().cls (cn[i], g.cls_order[i]);
+    R ().cls ("extract.matrix44-with-translation-row", g.translated);
     if (std::string (what) == "grid")
     {
         R ().cls ("grid.middle-angle-exactly-at-lock", g.grid_lock);
